@@ -1,8 +1,10 @@
 package seqio
 
 import (
+	"fmt"
 	"io"
 
+	"github.com/go-ascii/ascii"
 	"github.com/go-gts/gts"
 	"github.com/go-pars/pars"
 )
@@ -38,6 +40,21 @@ func (s *Scanner) Scan() bool {
 		return false
 	}
 
+	// The input ends normally only between records (trailing white space is
+	// tolerated); running out of input anywhere else is an error.
+	s.s.Push()
+	c, err := pars.Next(s.s)
+	for err == nil && ascii.IsSpace(c) {
+		s.s.Advance()
+		c, err = pars.Next(s.s)
+	}
+	if err != nil {
+		s.s.Drop()
+		s.err = err
+		return false
+	}
+	s.s.Pop()
+
 	if s.p == nil {
 		errs := make([]struct {
 			err error
@@ -62,12 +79,22 @@ func (s *Scanner) Scan() bool {
 				maxpos = v.pos
 			}
 		}
-		s.err = errs[argmax].err
+		s.err = truncated(errs[argmax].err)
 		return false
 	}
 
 	s.res, s.err = s.p.Parse(s.s)
+	s.err = truncated(s.err)
 	return s.err == nil
+}
+
+// truncated turns an error caused by the input ending in the middle of a
+// record into one that Err reports.
+func truncated(err error) error {
+	if err != nil && dig(err) == io.EOF {
+		return fmt.Errorf("unexpected end of input: %v", err)
+	}
+	return err
 }
 
 // Value returns the most recently scanned sequence value.
